@@ -16,7 +16,7 @@ from pykdebugparser.trace_codes import from_trace_codes_text
 from pykdebugparser.pykdebugparser import PyKdebugParser
 
 IDFORMS = ['0x40c0548', '40c0548', '0X40C0548', '0x0', 'ffffffff', '0x00000001']
-NAMES = ['A', 'BSC_read', 'a.b-c']
+NAMES = ['A', 'BSC_read', 'a.b-c', 'IO#x', '#n;//']
 SEPS = [' ', '\t', ' \t  ']
 TRAILS = ['', ' #comment', '\textra col']
 
@@ -185,7 +185,7 @@ class C19(Check):
     pid = 'C19'
     level = 'exploration'
     rule = ('(A) code-table texts: all sequences of <=2 lines over id-form (6: with/without 0x, upper case, zero, 32-bit max, '
-            'leading zeros) x name (3) x separator (3) x trailing (3) = 162 line kinds, and all sequences of 3 lines over a '
+            'leading zeros) x name (5, incl. names containing '#', ';', '/') x separator (3) x trailing (3) = 270 line kinds, and all sequences of 3 lines over a '
             '24-kind sub-grammar (repeated ids included), each with LF and CRLF, with and without final newline; oracle: '
             'mapping == independent parse (last occurrence wins). (B) supplied tables: the bundled table and every single edit '
             'over a 12-name working set (remove a name, move a decodable name to a fresh id, point it at an undecodable name, '
@@ -209,7 +209,7 @@ class C19(Check):
 
     def run_shard(self, desc, acc):
         if desc[0] == 'text2':
-            kinds = [(i, n, s, t) for i in range(6) for n in range(3) for s in range(3) for t in range(3)]
+            kinds = [(i, n, s, t) for i in range(6) for n in range(len(NAMES)) for s in range(3) for t in range(3)]
             first = [k for k in kinds if k[0] == desc[1]]
             for a in first:
                 for rest in [()] + [(b,) for b in kinds]:
@@ -225,7 +225,7 @@ class C19(Check):
                 if bad:
                     acc.violation(bad[0], {'kind': 'text', 'lines': [], 'eol': '\n'}, bad[1])
         elif desc[0] == 'text3':
-            kinds = [(i, n, 0, t) for i in range(6) for n in (0, 1) for t in (0, 1)]
+            kinds = [(i, n, 0, t) for i in range(6) for n in (0, 3) for t in (0, 1)]
             for combo in itertools.product(kinds, repeat=3):
                 ls = [line(*k) for k in combo]
                 for eol in ('\n', '\r\n'):
